@@ -10,8 +10,10 @@ PARAGRAPH_BREAK_PATTERN: Pattern[str] = re.compile(r"\n\s*\n")
 # Double quotes exclude double quotes, single quotes exclude single quotes.
 # Also as a special case allows quotes to start after an em dash (but not other punctuation
 # as this is more likely to be code).
+# What follows the closing quote is only looked at, not consumed: the whitespace between two
+# quoted words must remain available as the prefix of the second one ('a' 'b').
 QUOTE_PATTERN: Pattern[str] = re.compile(
-    r'(^|\s|—)(?:"([^"\u201c\u201d]*)"|\'([^\'\u2018\u2019]*)\')(\s|$|\.|,|;|:|\?|!|—|\))',
+    r'(^|\s|—)(?:"([^"\u201c\u201d]*)"|\'([^\'\u2018\u2019]*)\')(?=\s|$|\.|,|;|:|\?|!|—|\))',
     re.MULTILINE,
 )
 
@@ -34,7 +36,6 @@ def _apply_smart_quotes_to_text(text: str) -> str:
         prefix = match.group(1)
         double_content = match.group(2)  # Content of double quotes
         single_content = match.group(3)  # Content of single quotes
-        suffix = match.group(4)
 
         # Check for paragraph breaks in the content
         content = double_content if double_content is not None else single_content
@@ -44,10 +45,10 @@ def _apply_smart_quotes_to_text(text: str) -> str:
 
         if double_content is not None:
             # Replace double quotes with typographic quotes
-            return prefix + "\u201c" + double_content + "\u201d" + suffix
+            return prefix + "\u201c" + double_content + "\u201d"
         else:
             # Replace single quotes with typographic quotes
-            return prefix + "\u2018" + single_content + "\u2019" + suffix
+            return prefix + "\u2018" + single_content + "\u2019"
 
     result = QUOTE_PATTERN.sub(replace_quotes, text)
 
